@@ -57,6 +57,10 @@ type Quirks struct {
 	// parameter's value even when the stored property is an accessor, and
 	// [[DefineOwnProperty]] validates against the stored (raw) property.
 	ArgumentsKeepMapping bool
+	// DescriptorValueLast: ToPropertyDescriptor reads the fields in the order
+	// enumerable, configurable, writable, get, set, value (8.10.5 has value third),
+	// and with a get/set field present it throws before [[Get]] of "value".
+	DescriptorValueLast bool
 	// ResultHolesUndefined: concat, slice, splice (returned array) and map
 	// create an own property with value undefined where the source has a hole.
 	ResultHolesUndefined bool
